@@ -123,6 +123,11 @@ def run_case(case, ctx):
     else:
         bases = None
     samples = torch.tensor(rows, dtype=torch.double)
+    if samples.dim() == 2 and case.get("rep", 0) % 2 == 1:
+        # the data as a column block / every other row of a larger table, or column-major (what slicing a loaded file gives)
+        samples, mform = gen.memory_form(samples, rng)
+        ctx.count("non_contiguous_sample_batches")
+        ctx.seen("sample_memory_forms", mform)
     skeep = samples.clone()
     bkeep = None if bases is None else bases.copy()
 
